@@ -60,6 +60,14 @@ Proof. exact crop_ranges_tl_spec. Qed.
 
 (* samples(d, mode) is a count: never negative, 0 in strict mode when d is shorter than the window
    (after the repair of finding F12; the pre-repair strict formula is refuted) *)
+Theorem C15_crop_ignores_the_windows_own_end : forall d s st0 e1 e2,
+  let w1 := mkWin d s st0 e1 in
+  let w2 := mkWin d s st0 e2 in
+  (forall f m fx, crop_range w1 f m fx = crop_range w2 f m fx) /\
+  (forall eps foc m, crop_ranges_tl eps w1 foc m = crop_ranges_tl eps w2 foc m) /\
+  (forall eps foc m, crop_indices_tl eps w1 foc m = crop_indices_tl eps w2 foc m) /\
+  (forall dd m, samples w1 dd m = samples w2 dd m).
+Proof. exact crop_ignores_own_end. Qed.
 Theorem C15_samples_is_never_negative : forall w d m, 0 < w_step w -> 0 < w_dur w -> 0 <= d -> 0 <= samples w d m.
 Proof. exact samples_nonneg. Qed.
 Theorem C15_no_frame_fits_in_less_than_a_window : forall w d, 0 < w_step w -> d < w_dur w -> samples w d AStrict = 0.
@@ -100,6 +108,7 @@ Print Assumptions C15_empty_focus.
 Print Assumptions C15_ranges_describe_the_same_index_set.
 Print Assumptions C15_ranges_are_separated_runs.
 Print Assumptions C15_samples_is_never_negative.
+Print Assumptions C15_crop_ignores_the_windows_own_end.
 Print Assumptions C15_no_frame_fits_in_less_than_a_window.
 Print Assumptions C15_old_strict_count_refuted.
 Print Assumptions Binary64.C15_binary64_frame_quotient_error.
